@@ -756,6 +756,10 @@ def py_equal(a, b):
         return all(py_equal(getattr(a, k, None), getattr(b, k, None)) for k in type(a).__slots__)
     if isinstance(a, BaseException) and type(a) is type(b):
         return True
+    if type(a) is type(b) and hasattr(a, '__dict__') and not isinstance(a, (type, str, int, float, tuple, NativeOpaque, NativeFn)) \
+            and type(a).__eq__ is object.__eq__ and (type(a).__module__ or '').split('.')[0] in ('formulas', 'contracts'):
+        # instances of repository classes without their own __eq__: compared by their fields
+        return set(vars(a)) == set(vars(b)) and all(py_equal(vars(a)[k], vars(b)[k]) for k in vars(a))
     if isinstance(a, NativeOpaque) or isinstance(b, NativeOpaque):
         return a is b
     if isinstance(a, NativeFn) and isinstance(b, NativeFn):
